@@ -994,6 +994,8 @@ class NpModule:
         raise Unsupported("count_nonzero")
 
     def isnan(self, v):
+        if hasattr(v, "isnan") and not isinstance(v, float):
+            return v.isnan()
         if isinstance(v, float):
             return v != v
         if isinstance(v, (int, Sym)):
